@@ -21,7 +21,7 @@ MODEL_TRUST = ["modelled, not verified: Go maps and slices as association lists 
 
 PROPS = {
     "C01": dict(
-        props_files=["Avfs/Props/C01.lean", "Avfs/Props/C01_more.lean"],
+        props_files=["Avfs/Props/C01.lean", "Avfs/Props/C01_more.lean", "Avfs/Props/C01_links.lean"],
         parts=[dict(name="memfs"), dict(name="memfs-small"), dict(name="kernel-small", only_tier="thorough", args=["-scn", "namespace,link-budget,walk-answers,file-admin"]), dict(name="kernel"), dict(name="orefa"), dict(name="kernel-orefa")],
         trusted=MODEL_TRUST + ["oracle: the Linux kernel through OsFS / package os in a chroot-ed child process on a fresh tmpfs directory (corr kernel): MemFS itself, not the model, is compared call by call and tree by tree"],
         assumptions=["administrator; Linux emulation; the root directory is not an operand of remove/rename in the kernel comparison (the oracle's scratch root is not a file-system root)", "set-id bits are not generated in the kernel comparison (kernel-specific inheritance / clearing rules)"],
@@ -35,11 +35,11 @@ PROPS = {
         not_yet_proved=["searchNode ≃ namei (structural kernel-style resolution) — the equality with the kernel is carried by the oracle run", "follow-mode never returns a link; readlink (symlink t n) = clean t as theorems"],
     ),
     "C05": dict(
-        props_files=["Avfs/Props/C05.lean", "Avfs/Props/C05_rename.lean"],
+        props_files=["Avfs/Props/C05.lean", "Avfs/Props/C05_rename.lean", "Avfs/Props/C05_frame.lean"],
         parts=[dict(name="memfs"), dict(name="memfs-perm"), dict(name="memfs-small"), dict(name="memfs-views"), dict(name="orefa")],
         trusted=MODEL_TRUST + ["wfCheck (the executable invariant) is evaluated by the Lean driver on the node graph dumped from the implementation after every call"],
         assumptions=["sequential histories (concurrent executions: C06)", "views whose root directory has been removed through another view are outside the theorem (kernel-checked witness C05_detached_view_witness)"],
-        not_yet_proved=["the reachable-state theorem for MemFS (C05_reachable_wf) excludes Sub (detached views: witness C05_reachable_sub_witness)", "wfCheck complete for WF (soundness is C05_wfCheck_sound)", "frame property (a successful call changes only the entries it names)", "OrefaFS: the invariant (tree ≟ path index, link counts = number of keys) is proved for every reachable state of the MODEL (C05_orefa_reachable); on the implementation it is the consistency oracle evaluated after every call (corr orefa)"],
+        not_yet_proved=["the reachable-state theorem for MemFS (C05_reachable_wf) excludes Sub (detached views: witness C05_reachable_sub_witness)", "OrefaFS: the invariant (tree ≟ path index, link counts = number of keys) is proved for every reachable state of the MODEL (C05_orefa_reachable); on the implementation it is the consistency oracle evaluated after every call (corr orefa)"],
     ),
     "C06": dict(
         props_files=["Avfs/Props/C06.lean"],
@@ -100,11 +100,11 @@ PROPS = {
         not_yet_proved=["os_agreement as a theorem (needs the Windows branches in the Lean file-system models); the volume theorems (C17_add_empty, C17_delete_gone, C17_delete_add_empty, C17_others_untouched, C17_list_iff, C17_touch) see a volume as the set of names in its root directory, not as a tree"],
     ),
     "C02": dict(
-        props_files=["Avfs/Props/C02.lean", "Avfs/Props/C02_orefa.lean"],
+        props_files=["Avfs/Props/C02.lean", "Avfs/Props/C02_orefa.lean", "Avfs/Props/C02_dir.lean"],
         parts=[dict(name="memfs-files"), dict(name="memfs-small"), dict(name="kernel-small", only_tier="thorough", args=["-scn", "file-admin,dir-handle"]), dict(name="kernel-files"), dict(name="orefa"), dict(name="kernel-orefa")],
         trusted=MODEL_TRUST + ["oracle: *os.File through OsFS in a chroot-ed child process on a fresh tmpfs directory"],
         assumptions=["file sizes far below 2^31", "one process; handles interleaved sequentially"],
-        not_yet_proved=["OrefaFS handles: executable model tied by corr orefa and compared with os.File by corr kernel-orefa; theorems are stated for the MemFS handle model", "directory handles: one pass is proved (C02_readdir_batches); rewinding differs from os.File (recorded finding dir-handle-rewinds)"],
+        not_yet_proved=["timestamps are not part of the references", "mixed use of ReadDir and Readdirnames on one handle shares one position between two snapshots: what is delivered then is characterised (C02_dir_mixed), it is not a no-repeat / no-skip stream (witnesses C02_dir_mixed_witnesses); rewinding differs from os.File (recorded finding dir-handle-rewinds)"],
     ),
     "C03": dict(
         props_files=["Avfs/Props/C03.lean", "Avfs/Props/C03_calls.lean"],
